@@ -22,7 +22,7 @@ from pgverif.monitors import sched as S
 TIERS = {
     'quick': dict(shards=8, cases=80, free_every=8, replay_every=20,
                   watchdog_s=60, timeout_s=600),
-    'thorough': dict(shards=16, cases=1500, free_every=10, replay_every=50,
+    'thorough': dict(shards=16, cases=1200, free_every=10, replay_every=50,
                      watchdog_s=60, timeout_s=4500, case_timeout_s=300),
 }
 LEVEL = 'exploration'
